@@ -480,19 +480,7 @@ func (c *Ctx) writerKind(p *errProducer) string {
 	if !ok || len(call.Call.Args) == 0 {
 		return ""
 	}
-	w := call.Call.Args[0]
-	for i := 0; i < 4; i++ {
-		switch x := w.(type) {
-		case *ssa.MakeInterface:
-			w = x.X
-			continue
-		case *ssa.ChangeInterface:
-			w = x.X
-			continue
-		}
-		break
-	}
-	w = c.resolve(w)
+	w := c.writerOrigin(call.Call.Args[0])
 	if isPtrToNamed(w.Type(), "bytes", "Buffer") || isPtrToNamed(w.Type(), "strings", "Builder") {
 		return "buffer"
 	}
